@@ -3,6 +3,9 @@ from props import *  # noqa: F401,F403
 # ------------------------------------------------------------------------------------------------
 rc_bin("c06_rc", ["harness/c06_counter_conservation.cc"], lib=True)
 # the recorder/collector race once more under ThreadSanitizer (thorough tier only)
+rc_bin("c06_sched", ["harness/c06_sched.cc"], lib=False,
+       shadow=["api/include/opentelemetry/common/spin_lock_mutex.h"], shadow_globs=METRICS_SHADOW_GLOBS,
+       shadow_srcs_globs=METRICS_SHADOW_SRCS_GLOBS, repo_srcs_globs=METRICS_PLAIN_GLOBS)
 rc_bin("c06_rc_tsan", ["harness/c06_counter_conservation.cc"], lib=True, san="tsan")
 PROPS["C06"] = dict(
     level_text="Stateful model-based property tests (rapidcheck, ASan/UBSan): generated histories of instrument creation "
@@ -45,6 +48,7 @@ PROPS["C06"] = dict(
             deterministic=False),
         run("threads-tsan", "c06_rc_tsan", "counter_threads", "rc", None, dict(procs=4, cases=12000),
             deterministic=False),
+        run("meter-sched", "c06_sched", "meter_sched", "rc", dict(procs=4, cases=30000), dict(procs=8, cases=400000), asan_extra=SCHED_ASAN),
         # fixed cases: only ever replayed (replays/C06/*.json, known/C06/*.json); no search budget
         run("f7-witness", "c06_rc", "f7_witness", "rc", None, None),
         run("f8-handle-witness", "c06_rc", "f8_handle_witness", "rc", None, None),
